@@ -15,6 +15,6 @@ func TestProp(t *testing.T) {
 		kit.Clause[c2fCase]{Name: "C12/mc/coarse-to-fine", Quick: 300, Thorough: 6000, Gen: genC2F, Check: checkC2F, Fresh: true},
 		kit.Clause[c2f2Case]{Name: "C12/ms/coarse-to-fine", Quick: 600, Thorough: 12000, Gen: genC2F2, Check: checkC2F2, Fresh: true},
 		kit.Clause[dcCase]{Name: "C12/dc/configurations", Quick: 300, Thorough: 6000, Gen: genDC, Check: checkDC, Fresh: true},
-		kit.Clause[rastCase]{Name: "C12/raster/filters", Quick: 600, Thorough: 12000, Gen: genRast, Check: checkRast, Fresh: true},
+		kit.Clause[rastCase]{Name: "C12/raster/filters", Quick: 2400, Thorough: 24000, Gen: genRast, Check: checkRast, Fresh: true},
 	)
 }
